@@ -11,6 +11,8 @@ import Emu.Bt.Server
 import Emu.Proofs.LeafTie.KeysOutOfRange
 import Emu.Proofs.Chunks
 import Emu.Proofs.Sample
+import Emu.Proofs.MergeInPlace
+import Emu.Proofs.LeafTie.MessageOnInvalidKeyRanges
 
 namespace Emu.Props.C03
 open Emu Emu.Bt Emu.Proofs.BtRows Emu.Proofs.Ranges
@@ -99,6 +101,21 @@ example :
     (scanVisit (scanRanges [[98]] [⟨.opened [97], .closed [97, 98]⟩, ⟨.closed [97, 0], .opened [98]⟩]) rows).map (·.key)
       = [[97, 0], [97, 98], [98]] := by decide
 
+/-! ### The in-place merge
+
+`mergeSimpleRanges` merges inside the sorted array with a write pointer trailing the read index.
+`mergeInPlace` is that loop written with Go's array reads, writes and re-slice; it computes exactly
+the functional fold `mergeLoop` that `scan_visits_exactly_the_rowset` is about — no write clobbers
+an element that is still to be read. -/
+
+theorem in_place_merge_is_the_fold (x : SimpleRange) (xs : List SimpleRange) :
+    Emu.Proofs.MergeInPlace.mergeInPlace merge1 (x :: xs) = .ok (mergeLoop x xs) := by
+  rw [Emu.Proofs.MergeInPlace.mergeInPlace_eq]
+  simp only [Emu.Proofs.MergeInPlace.foldMerge_is_mergeLoop]
+
+example : Emu.Proofs.MergeInPlace.mergeInPlace merge1 [⟨[1], [3]⟩, ⟨[2], [5]⟩, ⟨[7], [8]⟩, ⟨[7, 0], []⟩, ⟨[9], [9, 1]⟩]
+    = .ok [⟨[1], [5]⟩, ⟨[7], []⟩] := by rfl
+
 /-! ### The chunk stream
 
 `rowChunks` is `chunkBuilder.add`, `messages` the batching of `ReadRows`, `decode` the state machine
@@ -184,5 +201,12 @@ leaf translator on every run; the Model's function is the same function. -/
 theorem source_keysOutOfRange_is_the_models (s e : Bytes) :
     Emu.Generated.Leaf.keysOutOfRange s e = Emu.Bt.keysOutOfRange s e :=
   Emu.Proofs.LeafTie.keysOutOfRange_tie s e
+
+/-- `messageOnInvalidKeyRanges(...) != ""`, regenerated from validation.go, on the four key fields
+    of a RowRange is the Model's `invalidRowRange` (the test `inverted_range_rejected` is about). -/
+theorem source_messageOnInvalidKeyRanges_is_the_models (rr : RowRange) :
+    (!decide (Emu.Generated.Leaf.messageOnInvalidKeyRanges rr.s.closedKey rr.s.openKey rr.e.closedKey rr.e.openKey = []))
+      = invalidRowRange rr :=
+  Emu.Proofs.LeafTie.messageOnInvalidKeyRanges_tie rr
 
 end Emu.Props.C03
